@@ -21,6 +21,19 @@
 (*                 is forgotten unless it recovered since it was scheduled *)
 (*   ActiveOK      (active recovery) the retryer's health check of a node  *)
 (*                 succeeds: counted as a successful completion            *)
+(*   Reload        the outlier rule of ONE resource is loaded again in the *)
+(*                 middle of the history (outlier.LoadRuleOfResource /     *)
+(*                 LoadRules): the rule parameters are STATE (cfg[r]).     *)
+(*                 keep:  the embedded circuit-breaker rule is unchanged   *)
+(*                        (percentage / recovery mode / intervals may      *)
+(*                        differ, or nothing at all): the known nodes and  *)
+(*                        their breakers survive                           *)
+(*                 clear: the rule is cleared and a rule (any) is loaded:  *)
+(*                        the known nodes are forgotten                    *)
+(*                 In both cases the recycler keeps its marks and its      *)
+(*                 armed timers, the retryer its pending health checks,    *)
+(*                 open entries and pooled contexts are untouched; every   *)
+(*                 later request is answered from the rule NOW in force.   *)
 (*                                                                         *)
 (* The filter set is ANY subset of the rejecting nodes that uses the cap   *)
 (* up (the code walks a Go map: the order is free).                        *)
@@ -36,8 +49,16 @@
 (*                 (whatever an earlier entry left in the pooled context)  *)
 (*   OwnOnly       the lists name only nodes known to the REQUESTED        *)
 (*                 resource                                                *)
-(*   Isolated      a request / completion / timer of one resource leaves   *)
-(*                 the nodes and the recycler of every other one alone     *)
+(*   Isolated      a request / completion / timer / reload of one resource *)
+(*                 leaves the nodes, the recycler and the rule of every    *)
+(*                 other one alone                                         *)
+(*   ReloadKeeps   a reload changes the rule of its resource and nothing   *)
+(*                 else (clear: and forgets its known nodes): the recycle  *)
+(*                 marks, the pending health checks, the open entries stay *)
+(*   SuccessSurvives  (statement level, over the history variable succ)    *)
+(*                 a node that completed a request successfully after it   *)
+(*                 was handed to the recycler is never forgotten by a      *)
+(*                 recycle timer - whatever reloads happened in between    *)
 (***************************************************************************)
 EXTENDS OutlierOps
 
@@ -48,7 +69,9 @@ CONSTANTS
     MaxT,         \* bound on the clock
     MaxReq,       \* bound on the number of requests
     MaxInflight,  \* bound on concurrently open entries
-    NRes,         \* number of resources (all carry cfg; each has its own nodes / breakers / recycler / retryer)
+    NRes,         \* number of resources (all START with the same configuration; each has its own rule cfg[r], nodes,
+                  \* breakers, recycler and retryer)
+    MaxReload,    \* bound on the number of rule reloads (0: the rules never change)
     Pooled,       \* TRUE: the answer lists live in pooled entry contexts that keep their content between entries
     Pre,          \* FALSE: start with no known node; TRUE: start from ANY set of known nodes, any of them open
                   \* (deadline at time 3, statistics expired) - reaches many-node ejection states with few requests
@@ -57,20 +80,27 @@ CONSTANTS
                   \* "half" probes not reported, "recycle" timer ignores the recovered mark,
                   \* "stale" a shortcut returns before the lists are written when nothing rejects and nothing is
                   \*         probed: the request reports what the pooled context still holds
+                  \* "forget" a reload forgets which scheduled nodes have recovered (it replaces the recycler's
+                  \*         bookkeeping while the armed timers stay)
 
 VARIABLES
-    now, cfg,
+    now,
+    cfg,        \* resource -> [rule, pct, active]: the outlier rule NOW in force (changed by Reload)
     nbk,        \* resource -> (node -> breaker); DOMAIN nbk[r] = nodes known to r
     inflight,   \* id -> [t = start time, res, ans = the lists in the entry's context]
     rec,        \* resource -> recycler: node -> "sched" | "rec"
     retry,      \* resource -> nodes with a pending health check (active recovery only)
     pool,       \* residues of the idle pooled contexts (a set: the pool may drop or duplicate nothing observable)
     nreq,
+    nrl,        \* number of reloads so far
+    succ,       \* resource -> nodes that completed a request successfully since they were handed to the recycler
+                \* (history of what HAPPENED, kept apart from the recycler's own marks `rec'; in a correct design
+                \* succ[r] = {n : rec[r][n] = "rec"}, so it adds no states)
     last,       \* the last step                                    (history, hidden by VIEW)
     h           \* scenario for the conformance driver              (history, hidden by VIEW)
 
-vars == <<now, cfg, nbk, inflight, rec, retry, pool, nreq, last, h>>
-view == <<now, cfg, nbk, inflight, rec, retry, pool, nreq>>
+vars == <<now, cfg, nbk, inflight, rec, retry, pool, nreq, nrl, succ, last, h>>
+view == <<now, cfg, nbk, inflight, rec, retry, pool, nreq, nrl, succ>>
 
 Res == 1..NRes
 PreOpen == [st |-> Open, retryAt |-> 3, probes |-> 0, ref |-> << >>]
@@ -79,52 +109,58 @@ FreeId == CHOOSE i \in Ids \ DOMAIN inflight : \A j \in Ids \ DOMAIN inflight : 
 
 Init ==
     /\ now = 1
-    /\ cfg \in Cfgs
+    /\ cfg \in { [r \in Res |-> c0] : c0 \in Cfgs }
     /\ IF Pre THEN nbk \in [Res -> { [n \in Kn |-> IF n \in Op THEN PreOpen ELSE NewBreaker] : Kn \in SUBSET Nodes, Op \in SUBSET Nodes }]
               ELSE nbk = [r \in Res |-> << >>]
     /\ inflight = << >> /\ rec = [r \in Res |-> << >>] /\ retry = [r \in Res |-> {}]
     /\ pool = {}
-    /\ nreq = 0
+    /\ nreq = 0 /\ nrl = 0
+    /\ succ = [r \in Res |-> {}]
     /\ last = [op |-> "init"]
-    /\ h = << [op |-> "new", rule |-> cfg.rule, pct |-> cfg.pct, active |-> cfg.active, nres |-> NRes] >>
+    /\ h = << [op |-> "new", rule |-> cfg[1].rule, pct |-> cfg[1].pct, active |-> cfg[1].active, nres |-> NRes] >>
 
 \* a request of resource r draws a context (one of the idle ones, or a new one), consults r's breakers and leaves
-\* its answer in the context
+\* its answer in the context; the answer follows the rule of r that is in force NOW
 Request(r) ==
     /\ nreq < MaxReq
     /\ Ids \ DOMAIN inflight # {}
-    /\ LET v   == View(nbk[r], cfg.rule, now)
+    /\ LET c0  == cfg[r]
+           v   == View(nbk[r], c0.rule, now)
            R   == Rejecting(v)
-           cap == Cap(Cardinality(DOMAIN nbk[r]), cfg.pct) + (IF Mut = "cap" THEN 1 ELSE 0)
+           cap == Cap(Cardinality(DOMAIN nbk[r]), c0.pct) + (IF Mut = "cap" THEN 1 ELSE 0)
            Cand == IF Mut = "closed" THEN DOMAIN nbk[r] ELSE R
            k   == Min2(Cardinality(Cand), cap)
-           H   == IF Mut = "half" THEN {} ELSE ExpHalf(v, cfg.active)
+           H   == IF Mut = "half" THEN {} ELSE ExpHalf(v, c0.active)
            id  == FreeId
        IN  \E F \in { S \in SUBSET Cand : Cardinality(S) = k }, c \in (IF Pooled THEN pool ELSE {}) \cup {FreshCtx} :
               LET ans == IF Mut = "stale" /\ R = {} /\ H = {} THEN c ELSE Answer(F, H)
               IN  /\ nbk' = [nbk EXCEPT ![r] = After(v)]
                   /\ rec' = IF R = {} THEN rec ELSE [rec EXCEPT ![r] = Sched(@, R)]
-                  /\ retry' = IF cfg.active THEN [retry EXCEPT ![r] = @ \cup R] ELSE retry
+                  /\ retry' = IF c0.active THEN [retry EXCEPT ![r] = @ \cup R] ELSE retry
                   /\ pool' = pool \ {c}
                   /\ inflight' = With(inflight, id, [t |-> now, res |-> r, ans |-> IF Pooled THEN ans ELSE FreshCtx])
                   /\ last' = [op |-> "req", res |-> r, filter |-> ans.filter, half |-> ans.half]
                   /\ h' = Append(h, [op |-> "req", id |-> id, res |-> r])
     /\ nreq' = nreq + 1
-    /\ UNCHANGED <<now, cfg>>
+    /\ UNCHANGED <<now, cfg, nrl, succ>>
 
 \* the context of a finished entry goes back to the pool WITH its lists
 Release(id) == pool' = IF Pooled THEN pool \cup {inflight[id].ans} ELSE pool
 
+\* what happened: a node the recycler holds completed successfully
+Succeeded(r, n) == IF n \in DOMAIN rec[r] THEN [succ EXCEPT ![r] = @ \cup {n}] ELSE succ
+
 Complete(id, n, err) ==
     /\ id \in DOMAIN inflight
     /\ LET r == inflight[id].res
-       IN  /\ nbk' = [nbk EXCEPT ![r] = CompleteAt(@, cfg.rule, n, now, now - inflight[id].t, err)]
+       IN  /\ nbk' = [nbk EXCEPT ![r] = CompleteAt(@, cfg[r].rule, n, now, now - inflight[id].t, err)]
            /\ rec' = IF err THEN rec ELSE [rec EXCEPT ![r] = Recover(@, n)]
+           /\ succ' = IF err THEN succ ELSE Succeeded(r, n)
            /\ last' = [op |-> "done", res |-> r, node |-> n, err |-> err]
     /\ Release(id)
     /\ inflight' = Without(inflight, {id})
     /\ h' = Append(h, [op |-> "done", id |-> id, node |-> n, err |-> err])
-    /\ UNCHANGED <<now, cfg, retry, nreq>>
+    /\ UNCHANGED <<now, cfg, retry, nreq, nrl>>
 
 \* the entry exits without a callee address: the statistic slot ignores it
 Leave(id) ==
@@ -133,32 +169,51 @@ Leave(id) ==
     /\ inflight' = Without(inflight, {id})
     /\ last' = [op |-> "leave", res |-> inflight[id].res]
     /\ h' = Append(h, [op |-> "leave", id |-> id])
-    /\ UNCHANGED <<now, cfg, nbk, rec, retry, nreq>>
+    /\ UNCHANGED <<now, cfg, nbk, rec, retry, nreq, nrl, succ>>
 
 Tick(d) ==
     /\ now + d <= MaxT
     /\ now' = now + d
-    /\ nbk' = [r \in Res |-> [n \in DOMAIN nbk[r] |-> [nbk[r][n] EXCEPT !.ref = Prune(@, BL(cfg.rule), cfg.rule.I, now + d)]]]
+    /\ nbk' = [r \in Res |-> [n \in DOMAIN nbk[r] |-> [nbk[r][n] EXCEPT !.ref = Prune(@, BL(cfg[r].rule), cfg[r].rule.I, now + d)]]]
     /\ last' = [op |-> "tick"]
     /\ h' = Append(h, [op |-> "tick", d |-> d])
-    /\ UNCHANGED <<cfg, inflight, rec, retry, pool, nreq>>
+    /\ UNCHANGED <<cfg, inflight, rec, retry, pool, nreq, nrl, succ>>
 
 RecycleFire(r, n) ==
     /\ n \in DOMAIN rec[r]
     /\ nbk' = IF rec[r][n] = "sched" \/ Mut = "recycle" THEN [nbk EXCEPT ![r] = Without(@, {n})] ELSE nbk
     /\ rec' = [rec EXCEPT ![r] = Without(@, {n})]
+    /\ succ' = [succ EXCEPT ![r] = @ \ {n}]
     /\ last' = [op |-> "recycle", res |-> r, node |-> n]
     /\ h' = Append(h, [op |-> "recycle", res |-> r, node |-> n])
-    /\ UNCHANGED <<now, cfg, inflight, retry, pool, nreq>>
+    /\ UNCHANGED <<now, cfg, inflight, retry, pool, nreq, nrl>>
 
 ActiveOK(r, n) ==
     /\ n \in retry[r]
     /\ retry' = [retry EXCEPT ![r] = @ \ {n}]
     /\ rec' = [rec EXCEPT ![r] = Recover(@, n)]
-    /\ nbk' = IF n \in DOMAIN nbk[r] THEN [nbk EXCEPT ![r][n] = OnComplete(@, cfg.rule, now, 0, FALSE)] ELSE nbk
+    /\ succ' = Succeeded(r, n)
+    /\ nbk' = IF n \in DOMAIN nbk[r] THEN [nbk EXCEPT ![r][n] = OnComplete(@, cfg[r].rule, now, 0, FALSE)] ELSE nbk
     /\ last' = [op |-> "active", res |-> r, node |-> n]
     /\ h' = Append(h, [op |-> "active", res |-> r, node |-> n])
-    /\ UNCHANGED <<now, cfg, inflight, pool, nreq>>
+    /\ UNCHANGED <<now, cfg, inflight, pool, nreq, nrl>>
+
+\* The outlier rule of resource r is loaded again: c is the rule in force from now on.
+\*   clear = FALSE  the embedded circuit-breaker rule stays (c.rule = cfg[r].rule; c = cfg[r] is the identical reload):
+\*                  every known node stays known, with its breaker as it is
+\*   clear = TRUE   ClearRuleOfResource, then the load of c (any rule): the known nodes are forgotten
+\* The recycler and the retryer are not part of the rule: marks, armed timers and pending health checks stay.
+Reload(r, c, clear) ==
+    /\ nrl < MaxReload
+    /\ c \in Cfgs
+    /\ clear \/ c.rule = cfg[r].rule
+    /\ cfg' = [cfg EXCEPT ![r] = c]
+    /\ nbk' = IF clear THEN [nbk EXCEPT ![r] = << >>] ELSE nbk
+    /\ rec' = IF Mut = "forget" THEN [rec EXCEPT ![r] = [n \in DOMAIN @ |-> "sched"]] ELSE rec
+    /\ nrl' = nrl + 1
+    /\ last' = [op |-> "reload", res |-> r, clear |-> clear]
+    /\ h' = Append(h, [op |-> "reload", res |-> r, clear |-> clear, rule |-> c.rule, pct |-> c.pct, active |-> c.active])
+    /\ UNCHANGED <<now, inflight, retry, pool, nreq, succ>>
 
 Next ==
     \/ \E r \in Res : Request(r)
@@ -167,6 +222,7 @@ Next ==
     \/ \E d \in Steps : Tick(d)
     \/ \E r \in Res, n \in Nodes : RecycleFire(r, n)
     \/ \E r \in Res, n \in Nodes : ActiveOK(r, n)
+    \/ \E r \in Res, c \in Cfgs, clear \in BOOLEAN : Reload(r, c, clear)
 
 Spec == Init /\ [][Next]_vars
 
@@ -174,42 +230,66 @@ Spec == Init /\ [][Next]_vars
 (* The property, restated on the pre-state without the operators Request uses *)
 
 Known(r) == DOMAIN nbk[r]
+IsReq == last'.op = "req"
+LR    == last'.res
+\* the rule the step is judged by: the one in force BEFORE the step (a request does not change it)
+LC    == cfg[LR]
 RejectsNow(r, n) ==
     \/ nbk[r][n].st = Open /\ now < nbk[r][n].retryAt
-    \/ nbk[r][n].st = HalfOpen /\ cfg.rule.probeNum = 0
+    \/ nbk[r][n].st = HalfOpen /\ cfg[r].rule.probeNum = 0
 \* the request is a probe of n: n is half-open afterwards and was admitted by n's breaker
 ProbedBy(r, n) == ~RejectsNow(r, n) /\ nbk'[r][n].st = HalfOpen
 
 TypeOK ==
-    /\ now >= 1 /\ nreq \in 0..MaxReq
-    /\ DOMAIN nbk = Res /\ DOMAIN rec = Res /\ DOMAIN retry = Res
+    /\ now >= 1 /\ nreq \in 0..MaxReq /\ nrl \in 0..MaxReload
+    /\ DOMAIN nbk = Res /\ DOMAIN rec = Res /\ DOMAIN retry = Res /\ DOMAIN cfg = Res /\ DOMAIN succ = Res
     /\ \A r \in Res :
+         /\ cfg[r] \in Cfgs
          /\ Known(r) \subseteq Nodes
          /\ \A n \in Known(r) : nbk[r][n].st \in {Closed, HalfOpen, Open} /\ nbk[r][n].probes >= 0
          /\ DOMAIN rec[r] \subseteq Nodes /\ \A n \in DOMAIN rec[r] : rec[r][n] \in {"sched", "rec"}
-         /\ ~cfg.active => retry[r] = {}
+         /\ succ[r] \subseteq DOMAIN rec[r]
+         \* (a reload may switch active recovery off while health checks are pending)
+         /\ (MaxReload = 0 /\ ~cfg[r].active) => retry[r] = {}
     /\ \A id \in DOMAIN inflight : inflight[id].t <= now /\ inflight[id].res \in Res
     /\ ~Pooled => pool = {}
     /\ \A c \in pool : c.filter \subseteq Nodes /\ c.half \subseteq Nodes
 
-IsReq == last'.op = "req"
-LR    == last'.res
 FilterSound  == IsReq => \A n \in last'.filter : n \in Known(LR) /\ RejectsNow(LR, n)
-CapRespected == IsReq => Cardinality(last'.filter) * cfg.pct[2] <= Cardinality(Known(LR)) * cfg.pct[1]
-HalfExact    == IsReq => last'.half = (IF cfg.active THEN {} ELSE { n \in Known(LR) : ProbedBy(LR, n) })
-QuietExact   == (IsReq /\ \A n \in Known(LR) : ~RejectsNow(LR, n) /\ (cfg.active \/ ~ProbedBy(LR, n)))
+CapRespected == IsReq => Cardinality(last'.filter) * LC.pct[2] <= Cardinality(Known(LR)) * LC.pct[1]
+HalfExact    == IsReq => last'.half = (IF LC.active THEN {} ELSE { n \in Known(LR) : ProbedBy(LR, n) })
+QuietExact   == (IsReq /\ \A n \in Known(LR) : ~RejectsNow(LR, n) /\ (LC.active \/ ~ProbedBy(LR, n)))
                     => last'.filter = {} /\ last'.half = {}
 OwnOnly      == IsReq => (last'.filter \cup last'.half) \subseteq Known(LR)
+\* a node is forgotten only by its own recycle timer, and only while the recycler holds it as not recovered - or by a
+\* reload that clears the rule of its resource
 RecycleSafe  == \A r \in Res : \A n \in Known(r) \ DOMAIN nbk'[r] :
-                    last'.op = "recycle" /\ last'.res = r /\ last'.node = n /\ n \in DOMAIN rec[r] /\ rec[r][n] = "sched"
+                    \/ last'.op = "recycle" /\ last'.res = r /\ last'.node = n /\ n \in DOMAIN rec[r] /\ rec[r][n] = "sched"
+                    \/ last'.op = "reload" /\ last'.res = r /\ last'.clear
 RecoveredKept == (last'.op = "done" /\ ~last'.err /\ last'.node \in DOMAIN rec[LR])
                     => rec'[LR][last'.node] = "rec" /\ last'.node \in DOMAIN nbk'[LR]
-\* requests never make a node known or unknown; completions only add
+\* the statement itself, independent of the recycler's bookkeeping: whoever completed successfully after being handed
+\* to the recycler is not forgotten by a recycle timer (only a clearing reload forgets nodes otherwise)
+SuccessSurvives == \A r \in Res : \A n \in Known(r) \ DOMAIN nbk'[r] :
+                    \/ n \notin succ[r]
+                    \/ last'.op = "reload" /\ last'.res = r /\ last'.clear
+\* requests never make a node known or unknown; completions only add; a reload keeps or clears
 KnownMoves   == /\ IsReq => DOMAIN nbk'[LR] = Known(LR)
                 /\ last'.op = "done" => DOMAIN nbk'[LR] = Known(LR) \cup {last'.node}
                 /\ last'.op = "leave" => nbk' = nbk /\ rec' = rec
-\* whatever one resource does, the nodes and the recycler of the others stay as they are (time only prunes statistics)
-Isolated     == "res" \in DOMAIN last' => \A r \in Res \ {LR} : nbk'[r] = nbk[r] /\ rec'[r] = rec[r] /\ retry'[r] = retry[r]
+                /\ last'.op = "reload" => nbk'[LR] = (IF last'.clear THEN << >> ELSE nbk[LR])
+\* a reload replaces the rule of its resource and touches nothing else: the recycle marks (and with them the armed
+\* timers), the pending health checks, the open entries and the pooled contexts stay; the circuit-breaker rule only
+\* changes together with a clear
+ReloadKeeps  == last'.op = "reload" =>
+                    /\ rec' = rec /\ retry' = retry /\ inflight' = inflight /\ pool' = pool /\ now' = now
+                    /\ cfg'[LR] \in Cfgs
+                    /\ ~last'.clear => cfg'[LR].rule = cfg[LR].rule
+\* whatever one resource does, the nodes, the recycler and the rule of the others stay as they are (time only prunes statistics)
+Isolated     == "res" \in DOMAIN last' => \A r \in Res \ {LR} : /\ nbk'[r] = nbk[r] /\ rec'[r] = rec[r] /\ retry'[r] = retry[r]
+                                                                /\ cfg'[r] = cfg[r]
+\* only a reload changes a rule
+RuleStable   == last'.op # "reload" => cfg' = cfg
 
 PFilter  == [][FilterSound]_vars
 PCap     == [][CapRespected]_vars
@@ -218,6 +298,8 @@ PQuiet   == [][QuietExact]_vars
 POwn     == [][OwnOnly]_vars
 PRecycle == [][RecycleSafe]_vars
 PKept    == [][RecoveredKept]_vars
+PSurvive == [][SuccessSurvives]_vars
 PKnown   == [][KnownMoves]_vars
+PReload  == [][ReloadKeeps /\ RuleStable]_vars
 PIsolated == [][Isolated]_vars
 =============================================================================
